@@ -673,6 +673,10 @@ def rand_slice(rng, n, allow_step=True):
         return [None, None, None]
     a = rng.randint(-n, n)
     b = rng.randint(-n, n + 1)
+    if rng.random() < 0.08:
+        # slices may start or stop outside the axis (NumPy clips them): x[-9::-1], x[2:99]
+        a = rng.randint(-2 * n - 1, 2 * n)
+        b = rng.randint(-2 * n - 1, 2 * n + 1)
     step = None
     if allow_step and rng.random() < 0.25:
         step = rng.choice([2, 3, -1, -2])
@@ -746,6 +750,11 @@ class RechunkOp:
             ax = rng.randrange(x.ndim)
             return {"dict": {str(ax): rng.choice([-1, rng.randint(1, max(1, x.shape[ax]))])}}
         a = {"chunks": jsonable_chunks(rand_chunks(rng, x.shape))}
+        same = [i for i in range(1, x.ndim) if x.shape[i] == x.shape[0] and x.shape[0] > 1]
+        if same and rng.random() < 0.5:
+            # equal explicit splits on two axes of equal length ((a, a) with one or two tuple objects)
+            row = split_dim(rng, int(x.shape[0]))
+            a["chunks"] = [row if (i == 0 or i in same) else [int(x.shape[i])] for i in range(x.ndim)]
         if rng.random() < 0.1:
             a["balance"] = True
         if rng.random() < 0.15:
